@@ -191,6 +191,17 @@ func genC06Reconnect(p *Plan, r *RNG) {
 		cls := r.Pick([]string{"lock", "lock", "unlock", "log:*", "sock:listener-conn:Close", "cb:OnAllocationDeleted"})
 		p.Stalls = append(p.Stalls, Stall{M: Match{Class: cls, Args: "*", Nth: r.Range(1, 4)}, ParkNS: r.PickI64([]int64{100 * ms, sec, 5 * sec}), AfterOp: x})
 	}
+	if r.Chance(1, 2) {
+		// over the new connection the client first releases what it still holds on this 5-tuple
+		// (the server may not have seen the old connection's end yet): a Refresh 0 that is
+		// answered with success has removed the allocation, whichever connection made it
+		add(Op{Actor: c, Kind: "refresh", At: gap(int64(r.Range(1, 300)) * ms), A: OpArgs{Lifetime: 0}})
+		if r.Chance(1, 2) {
+			// ... and the old connection's clean-up is held up before it has taken the allocation
+			// out of the table (the first lock it takes in the allocation manager)
+			p.Stalls = []Stall{{M: Match{Class: "lock", Args: "allocation_manager.go:*", Nth: 1}, ParkNS: r.PickI64([]int64{sec, 5 * sec}), AfterOp: x}}
+		}
+	}
 	add(Op{Actor: c, Kind: "allocate", At: gap(int64(r.Range(1, 400)) * ms), A: OpArgs{Lifetime: -1}})
 	add(Op{Actor: c, Kind: "createperm", At: gap(int64(r.Range(100, 900)) * ms), A: OpArgs{Peer: p.Peers[0].Addr}})
 	add(Op{Actor: "", Kind: "wait", At: gap(6 * sec)})
